@@ -103,6 +103,10 @@ class Run:
             late = SimThread(target=starter)
             late.start()
             s.gate_wait('fault', timeout=5.0)
+        if c.get('fault_at_stop'):
+            # a second stop request (SIGTERM to the server at the moment its main thread waits for the k-th time for one of its
+            # children to end) arriving in the middle of the clean-up that the first request started
+            C.install_fault(s, c['fault'])
         descendants_before = [p for p in lib.descendants(s, sp)]
         t0 = s.now
         if c['stop'].startswith('terminate'):
@@ -214,6 +218,25 @@ def plan(ctx):
                           'during_start': True, 'stop_timeout': 0, 'consumers': False, 'policy': {'kind': 'directed', 'p_stay': 0.9},
                           'knobs': {}, 'sched_seed': ctx.case_seed('sigterm-at-line', k, nch)})
     ctx.run(cases, 'sigterm-at-each-line-of-worker-start-up')
+    # directed: a forced stop overlapping the graceful one - the second request arrives while the server (or a context helper,
+    # whose server is gone by then) is in the middle of its own clean-up loop
+    from harness.check import draw_env
+    cases = []
+    for k in range(160 if ctx.tier != 'thorough' else 1500):
+        pol, knobs = draw_env(rng, tcp=True)
+        ch = ['in-context'] + [rng.choice(STATES) for _ in range(rng.randrange(0, 3))]
+        rng.shuffle(ch)
+        cases.append({'kind': 'server', 'children': ch, 'stop': 'terminate-fast', 'fault': None, 'during_start': False,
+                      'stop_timeout': rng.choice([0, 0.005, 0.01, 0.02, 0.05, 0.1, 0.3]), 'consumers': rng.random() < 0.3,
+                      'policy': pol, 'knobs': knobs, 'sched_seed': ctx.case_seed('overlapping-stops', k)})
+    for chs in (['in-context'], ['busy-persistent', 'in-context'], ['in-context', 'in-context', 'coop'], ['swallow', 'in-context']):
+        for stop in ('terminate-noforce', 'terminate'):
+            for occ in range(1, 9 if ctx.tier == 'thorough' else 7):
+                cases.append({'kind': 'server', 'children': chs, 'stop': stop, 'during_start': False, 'fault_at_stop': True,
+                              'fault': {'kind': 'sigterm', 'role': 'child-main:ProcessWorker._run', 'proc_tag': 'server', 'on_block': 'join-proc', 'occ': occ},
+                              'stop_timeout': 0, 'consumers': False, 'policy': {'kind': 'random', 'p_stay': rng.choice([0.5, 0.9, 0.99])},
+                              'knobs': {}, 'sched_seed': ctx.case_seed('sigterm-during-cleanup', stop, occ, len(chs))})
+    ctx.run(cases, 'overlapping-stop-requests')
     cases = []
     for i in range(n):
         cases.append(gen_case(ctx, rng, i))
